@@ -239,6 +239,113 @@ func runC07(c *Ctx) {
 		c.guarded(fn, g, 1, "route the hash to its sub-bucket", effects, 1, gDominate)
 	})
 
+	c.rule("C07.V5", "every header of a batch gets its index entry, whatever its hash: addHeaders caches the sub-bucket of the previous entry and resolves a new one when the prefix changes; before anything was resolved the cache must not be able to hit, so the resolution is either unconditional, or skipped only behind bytes.Equal(cached, prefix) with a cached prefix that starts as the empty slice and a prefix of constant non-zero length (an empty slice equals no real prefix), or behind an explicit test that a bucket has been resolved - a cached prefix held in an array starts as 00 00, which is a legal prefix: a header whose hash starts with it is put into a nil bucket", func() {
+		fn := c.fn("(*headerfs.headerIndex).addHeaders")
+		nested := c.method("github.com/btcsuite/btcwallet/walletdb", "ReadWriteBucket", "NestedReadWriteBucket")
+		beq := c.funcObj("bytes", "Equal")
+		var cl *ssa.Function
+		var res ssa.Instruction
+		for _, f := range append([]*ssa.Function{fn}, fn.AnonFuncs...) {
+			for _, in := range find(f, callTo(nested)) {
+				if ir.LoopHeaderOf(in.Block()) != nil {
+					cl, res = f, in
+				}
+			}
+		}
+		construct := c.nm(fn) + " | the sub-bucket cache cannot hit before a bucket was resolved"
+		if res == nil {
+			// resolved per entry elsewhere (helper) or not cached at all
+			c.verdict(true, construct, c.P.Pos(fn.Pos()), "no cached resolution inside the entry loop", "")
+			return
+		}
+		h := ir.LoopHeaderOf(res.Block())
+		inLoop := ir.LoopBlocks(h)
+		// the branch that decides whether the resolution runs
+		var conds []*ssa.If
+		for b := range inLoop {
+			iff, ok := b.Instrs[len(b.Instrs)-1].(*ssa.If)
+			if !ok || b == res.Block() {
+				continue
+			}
+			d0 := b.Succs[0] == res.Block() || b.Succs[0].Dominates(res.Block())
+			d1 := b.Succs[1] == res.Block() || b.Succs[1].Dominates(res.Block())
+			// (a test whose other side leaves the loop is the loop's own
+			// continuation test, not a decision to skip the resolution)
+			if d0 != d1 && b.Dominates(res.Block()) && inLoop[b.Succs[0]] && inLoop[b.Succs[1]] {
+				conds = append(conds, iff)
+			}
+		}
+		ok := len(conds) == 0
+		why := "the resolution is unconditional"
+		for _, iff := range conds {
+			cond := iff.Cond
+			for {
+				u, isU := cond.(*ssa.UnOp)
+				if !isU || u.Op != token.NOT {
+					break
+				}
+				cond = u.X
+			}
+			good := false
+			if call, isCall := cond.(*ssa.Call); isCall && callTo(beq)(call) {
+				a := call.Call.Args
+				emptyStart := func(v ssa.Value) bool {
+					p, isPhi := ir.Strip(v).(*ssa.Phi)
+					if !isPhi || p.Block() != h {
+						return false
+					}
+					for i, e := range p.Edges {
+						if !inLoop[h.Preds[i]] && !ir.IsNil(ir.Strip(e)) {
+							return false
+						}
+					}
+					return true
+				}
+				realPrefix := func(v ssa.Value) bool {
+					sl, isSl := ir.Strip(v).(*ssa.Slice)
+					if !isSl || sl.High == nil {
+						return false
+					}
+					hi, isC := ir.ConstInt(sl.High)
+					lo := int64(0)
+					if sl.Low != nil {
+						l, isL := ir.ConstInt(sl.Low)
+						if !isL {
+							return false
+						}
+						lo = l
+					}
+					return isC && hi-lo >= 1
+				}
+				if len(a) == 2 && (emptyStart(a[0]) && realPrefix(a[1]) || emptyStart(a[1]) && realPrefix(a[0])) {
+					good = true
+					why = "skipped only behind bytes.Equal(cached, prefix) with cached starting empty and a prefix of constant non-zero length"
+				}
+			}
+			// an explicit "nothing resolved yet" test somewhere in the condition
+			if b, isB := cond.(*ssa.BinOp); isB && (b.Op == token.EQL || b.Op == token.NEQ) && (ir.IsNil(b.X) || ir.IsNil(b.Y)) {
+				good = true
+				why = "the condition tests whether a bucket has been resolved"
+			}
+			if p, isPhi := cond.(*ssa.Phi); isPhi {
+				for _, e := range p.Edges {
+					if b, isB := e.(*ssa.BinOp); isB && (ir.IsNil(b.X) || ir.IsNil(b.Y)) {
+						good = true
+						why = "the condition tests whether a bucket has been resolved"
+					}
+				}
+			}
+			if good {
+				ok = true
+			} else {
+				ok = false
+				break
+			}
+		}
+		_ = cl
+		c.verdict(ok, construct, c.at(res), why, "the resolution of the sub-bucket is skipped behind a comparison that the not-yet-filled cache can satisfy (its start value is a possible prefix): such a header is put into a nil bucket", c.at(res))
+	})
+
 	c.rule("C07.V4", blockLocatorDoc, func() { c.blockLocatorToGenesis() })
 
 	c.rule("C07.V1", "appendRaw: the size used to cut a partial write off is the end-of-file offset before the write (the file is opened O_APPEND, so the current offset is not the end of file after open or after a truncate): Seek(0, io.SeekEnd) or Stat().Size()", func() {
@@ -773,8 +880,11 @@ const blockLocatorDoc = "a block locator reaches back to genesis: the walk in bl
 // blockLocatorToGenesis: see blockLocatorDoc (C07.V4, also C04.O7).
 func (c *Ctx) blockLocatorToGenesis() {
 	fn := c.fn("(*headerfs.blockHeaderStore).blockLocatorFromHash")
-	fetch := c.hfs("blockHeaderStore", "FetchHeaderByHeight")
-	calls := find(fn, callTo(fetch))
+	// (the exported reader, or the lock-free one when the caller's read lock
+	// covers the whole walk)
+	readers := []*types.Func{c.hfs("blockHeaderStore", "FetchHeaderByHeight")}
+	readers = append(readers, c.methodsOpt("headerfs", "blockHeaderStore", "readHeader")...)
+	calls := find(fn, callTo(readers...))
 	construct := c.nm(fn) + " | the locator walk ends at height 0 or a full locator"
 	var h *ssa.BasicBlock
 	for _, in := range calls {
